@@ -540,8 +540,9 @@ reg("C13", xc("exploration",
     "spliced at every boundary: from_bytes succeeds and shows every announced value, from_bytes(into_bytes(x)) == x, unknown ids ignored.",
     "every assignment x wire form x splice position of the lattice",
     ["values enter through from_bytes of own bytes (the discovery structs cannot be constructed from outside the crate), hence octet "
-     "sequences > 65 528 bytes are not reachable here (the > 65 535 part of the property is covered at message level by C08/KF-C08-1)"],
-    (10_000, 100)))
+     "sequences > 65 528 bytes are not reachable there; the end-to-end scenarios C13.audit[user-data,len=...] (simcheck) announce "
+     "65 000 ... 70 000 octets of user data through the public API"],
+    (10_000, 100), also=["simcheck"]))
 reg("C39", xc("exploration",
     "5 base member lists x 3 extensibilities x 22 edits (thorough: all pairs of edits) x both directions x 3 type-consistency settings: "
     "reflexivity; dust-dds's assignability answer vs own reading of 7.2.4.4.8; for pairs assignable under the rules every writer value "
